@@ -1,4 +1,6 @@
 ---- MODULE RangeReadVerdict ----
+(* Computes the B3 verdict on the recorded outcomes (ASSUME, constant evaluation); the check runs this module with
+   HeaderBug = "plus" and expects TLC to report ProtocolOk violated (falsifiability of the protocol property). *)
 EXTENDS RangeRead
-ASSUME Verdict
+ASSUME Verdict(TRUE)
 ====
